@@ -35,6 +35,10 @@ add("C03", "runtime monitoring: boundary monitors on the height functions / emit
     "height_func_list / height_dict / height_max / determine_n_emitters are called on every generating set of every stabilizer state on <=2 (thorough <=3) qubits, on random states in three generating sets each up to 12 qubits and on graphs up to 40 vertices, and compared with rank_GF2(generators restricted to A) - |A| (itself checked against dense von Neumann entropies); every rref call is probed for state preservation and echelon shape; solver circuits are checked for n_emitters = max profile and one emission per photon.",
     TRUST + "Known finding trs-isolated-vertex is reported, not hidden.", "DESIGN.md section 5, C03")
 
+add("C09", "runtime monitoring: boundary monitors on the LC-equivalence decision and its constructive outputs, judged by exhaustive local-complementation orbits and an independent Pauli-algebra/dense oracle; probe on the solution-basis finder",
+    "Every ordered pair of labelled graphs on <=4 (thorough <=5: 1.05 million) vertices plus sampled pairs on 6..9 vertices with known truth goes through is_lc_equivalent (both modes); each 'yes' is followed through local_clifford_ops, find_lc_operations, converter_gate_list, lc_check (graph / stabilizer / Clifford tableau inputs), Graph.lc_equivalent and state_converter_circuit, whose gate lists and complementation sequences are replayed by the oracle; local complementation itself is checked for the toggling rule and involution.",
+    TRUST + "For n>=7 'inequivalent' is asserted only when a cut-rank invariant differs.", "DESIGN.md section 5, C09")
+
 NOT_YET = {
 }
 
